@@ -807,7 +807,7 @@ pub fn run(ctx: &Ctx) -> Report {
         }
     } else {
         let mut rng = ctx.rng("c13");
-        let n = ctx.pick(96, 2400) / ctx.nshards;
+        let n = ctx.pick(96, 4800) / ctx.nshards;
         let mut v: Vec<Scen> = (0..n).map(|_| gen(&mut rng)).collect();
         // directed: two requests to the same known-but-unconnected peer (dial on demand)
         for k in 0..2 {
